@@ -1003,23 +1003,33 @@ impl<'a> CompilerState<'a> {
                 }
             })
             .map_infix(|lhs, op, rhs| {
+                // Propagate operand errors, and reject results that do not fit in an int
+                let (lhs, rhs): (Result<i32, Error>, Result<i32, Error>) = (Ok(lhs?), Ok(rhs?));
+                let overflow = || self.syntax_error("Constant expression overflow", op.as_span().start());
                 let res = match op.as_rule() {
-                    Rule::mul => lhs.unwrap() * rhs.unwrap(),
+                    Rule::mul => lhs.unwrap().checked_mul(rhs.unwrap()).ok_or_else(overflow)?,
                     Rule::div => {
                         let d = rhs.unwrap();
                         if d == 0 {
                             let start = op.as_span().start();
                             return Err(self.syntax_error("Division by zero", start));
                         }
-                        lhs.unwrap() / d
+                        lhs.unwrap().checked_div(d).ok_or_else(overflow)?
                     }
-                    Rule::add => lhs.unwrap() + rhs.unwrap(),
-                    Rule::sub => lhs.unwrap() - rhs.unwrap(),
+                    Rule::add => lhs.unwrap().checked_add(rhs.unwrap()).ok_or_else(overflow)?,
+                    Rule::sub => lhs.unwrap().checked_sub(rhs.unwrap()).ok_or_else(overflow)?,
                     Rule::and => lhs.unwrap() & rhs.unwrap(),
                     Rule::or => lhs.unwrap() | rhs.unwrap(),
                     Rule::xor => lhs.unwrap() ^ rhs.unwrap(),
-                    Rule::brs => lhs.unwrap() >> rhs.unwrap(),
-                    Rule::bls => lhs.unwrap() << rhs.unwrap(),
+                    Rule::brs => u32::try_from(rhs.unwrap())
+                        .ok()
+                        .and_then(|s| lhs.unwrap().checked_shr(s))
+                        .ok_or_else(overflow)?,
+                    Rule::bls => u32::try_from(rhs.unwrap())
+                        .ok()
+                        .filter(|s| *s < 32)
+                        .and_then(|s| i32::try_from((lhs.unwrap() as i64) << s).ok())
+                        .ok_or_else(overflow)?,
                     Rule::land => {
                         if lhs.unwrap() != 0 && rhs.unwrap() != 0 {
                             1
@@ -1101,8 +1111,10 @@ impl<'a> CompilerState<'a> {
                 Ok(res)
             })
             .map_prefix(|op, rhs| match op.as_rule() {
-                Rule::neg => Ok(-rhs?),
-                Rule::not => Ok(!rhs?),
+                Rule::neg => rhs?
+                    .checked_neg()
+                    .ok_or_else(|| self.syntax_error("Constant expression overflow", op.as_span().start())),
+                Rule::not => Ok((rhs? == 0) as i32),
                 Rule::bnot => Ok(!rhs?),
                 _ => unreachable!(),
             })
